@@ -1,25 +1,27 @@
 import Bch.Generated.Facts
+import Bch.Tie.StateLib
 /-
 State-footprint tie (Coinset).
 The model of this source group carries exactly the state listed here from one call to the next. The lists are
 re-extracted from /repo's current source by `harness facts` (go/ast): the field types of every exported struct type of
 the group and of the package structs reachable from its fields (names dropped; each field reduced to its
 shape - named / pointer / slice / array / map - so that a change of representation of the same piece of state
-does not count, a new field does; unexported per-call helper records are not state) and the types of the package-level variables some function may modify.
+does not count, a new field does; unexported per-call helper records are not state). The comparison is
+one-directional (`StateLib.covered`): the code may have less state than the model accounts for, never more. and the types of the package-level variables some function may modify.
 New state (a cache field, a pooled buffer, a memo variable) is state the model does not have: the theorems of the
 properties resting on this model then no longer speak for the code until the model is extended.
 -/
 namespace Bch.Tie.StateCoinset
 
 /-- coinset: CoinSet = (list, total value, total value-age), SimpleCoin, the four selector structs -/
-theorem tie_state_structs : Generated.stateCoinsetStructs =
+theorem tie_state_structs : StateLib.covered Generated.stateCoinsetStructs
     [["named", "named"],
     ["named", "named"],
     ["named", "named"],
     ["named", "named", "named"],
     ["named", "named", "pointer"],
-    ["named", "named", "pointer"]] := by decide +kernel
+    ["named", "named", "pointer"]] = true := by decide +kernel
 
-theorem tie_state_globals : Generated.stateCoinsetGlobals = [] := by decide +kernel
+theorem tie_state_globals : StateLib.covered [Generated.stateCoinsetGlobals] [[]] = true := by decide +kernel
 
 end Bch.Tie.StateCoinset
